@@ -20,16 +20,29 @@ import (
 func noEnv(string) string { return "" }
 
 // parseYAML runs the real parser on YAML text.
-func parseYAML(text string, mapping func(string) string) (nfpm.Config, error) {
+func parseYAML(text string, mapping func(string) string) (cfg nfpm.Config, err error) {
 	if mapping == nil {
 		mapping = noEnv
 	}
+	// a panic inside the parser is a failure to parse this document (reported like any other parse error, with
+	// the panic value), not a crash of the harness
+	defer func() {
+		if r := recover(); r != nil {
+			err = fmt.Errorf("PANIC in nfpm.ParseWithEnvMapping: %v", r)
+		}
+	}()
 	return nfpm.ParseWithEnvMapping(strings.NewReader(text), mapping)
 }
 
 // packageFrom performs what the command-line tool does after parsing:
 // Get(format) -> WithDefaults -> Package.
-func packageFrom(cfg *nfpm.Config, format string) ([]byte, *nfpm.Info, error) {
+func packageFrom(cfg *nfpm.Config, format string) (out []byte, oinfo *nfpm.Info, oerr error) {
+	// likewise: a panic while obtaining the settings or packaging is a failed packaging call
+	defer func() {
+		if r := recover(); r != nil {
+			oerr = fmt.Errorf("PANIC in Config.Get / Package(%s): %v", format, r)
+		}
+	}()
 	info, err := cfg.Get(format)
 	if err != nil {
 		return nil, nil, fmt.Errorf("get: %w", err)
